@@ -26,7 +26,10 @@ let parse_fs (arg : string) : FS.node =
     | [k; ph; dh] ->
         let p = split_path (string_of_hex ph) in
         if k = "d" then get_ok e (FS.mkdir_all p s)
-        else begin
+        else if k = "l" then begin
+          let s = get_ok e (FS.mkdir_all (drop_last p) s) in
+          get_ok e (LocalStore.mk_symlink p (bytes_of_hex dh) s)
+        end else begin
           let s = get_ok e (FS.mkdir_all (drop_last p) s) in
           let s = get_ok e (FS.create_excl p s) in
           get_ok e (FS.write_file p (bytes_of_hex dh) s)
